@@ -394,6 +394,10 @@ def run_property(pid, tier, seed, jobs, budget_s, out=print):
     t0 = time.time()
     deadline = t0 + budget_s
     mod = load_prop(pid)
+    try:                                  # the evidence file always describes THIS run
+        os.remove(os.path.join(OUT, "evidence", f"{pid}.json"))
+    except OSError:
+        pass
     stats = Stats()
     failures = {}        # sig -> (case, msg)
     known_lines = []
@@ -479,6 +483,60 @@ def run_property(pid, tier, seed, jobs, budget_s, out=print):
     #    different violation even when its signature coincides with a known finding's
     new = dict(failures)
 
+    viol_lines = []
+
+    def write_outputs(final):
+        """replay files and the evidence file; written once before minimisation (so that a stall while minimising loses
+        nothing) and once more at the end"""
+        nonlocal viol_lines
+        os.makedirs(os.path.join(OUT, "replays"), exist_ok=True)
+        viol_lines = []
+        for s, (case, msg) in sorted(new.items()):
+            rel = os.path.join("replays", f"{pid}-{s}.json")
+            with open(os.path.join(OUT, rel), "w") as fh:
+                json.dump({"property": pid, "signature": s, "message": msg, "case": case}, fh, indent=1, default=str)
+            viol_lines.append(f"VIOLATION property={pid} replay={rel}")
+            if final:
+                out(f"  [{s}] {msg[:300]}")
+
+        wall = time.time() - t0
+        samples = (stats.nt_samples + stats.samples)[:4]
+        evidence = {
+            "property_id": pid, "tier": tier, "seed": int(seed), "level": getattr(mod, "LEVEL", "exploration"),
+            "coverage": {
+                "evaluations": stats.evaluations,
+                "distinct_nontrivial": len(stats.nontrivial),
+                "rule": mod.RULE,
+                "samples": samples,
+                "labels": dict(sorted(stats.labels.items())),
+                "exhaustive": bool(exhaustive_n) and not budget_hit,
+                "exhaustive_cases": exhaustive_n,
+                "exhaustive_domain": getattr(mod, "EXHAUSTIVE_DOMAIN", None),
+                "random_cases_requested": (per * shards) if n_total > 0 else 0,
+                "shards": shards,
+                "corpus_replays": corpus_run,
+                "live_known_findings": sorted(live),
+                "excluded_by_known_finding": stats.excluded,
+                "budget_hit": budget_hit,
+                "violation_signatures": sorted(new),
+                "failing_cases_minimised": bool(final),
+                "repo": os.environ.get("VERIF_REPO", "/repo"),
+            },
+            "assumptions": list(getattr(mod, "ASSUMPTIONS", [])),
+            "wall_s": round(wall, 2),
+            "violations": len(new),
+        }
+        if not evidence["coverage"]["exhaustive"]:
+            evidence["coverage"]["exhaustive"] = False
+        os.makedirs(os.path.join(OUT, "evidence"), exist_ok=True)
+        with open(os.path.join(OUT, "evidence", f"{pid}.json"), "w") as fh:
+            json.dump(evidence, fh, indent=1, default=str)
+
+
+    viol_lines = []
+    write_outputs(final=False)
+    if os.environ.get("VF_TEST_STALL") == "1":          # self-test of the supervisor in vf/cli.py: pretend to stop responding here
+        time.sleep(10 ** 6)
     # minimise corpus / exhaustive failures too
     for s in list(new):
         case, msg = new[s]
@@ -489,47 +547,8 @@ def run_property(pid, tier, seed, jobs, budget_s, out=print):
         except FATAL:
             pass
 
-    os.makedirs(os.path.join(OUT, "replays"), exist_ok=True)
-    viol_lines = []
-    for s, (case, msg) in sorted(new.items()):
-        rel = os.path.join("replays", f"{pid}-{s}.json")
-        with open(os.path.join(OUT, rel), "w") as fh:
-            json.dump({"property": pid, "signature": s, "message": msg, "case": case}, fh, indent=1, default=str)
-        viol_lines.append(f"VIOLATION property={pid} replay={rel}")
-        out(f"  [{s}] {msg[:300]}")
-
+    write_outputs(final=True)
     wall = time.time() - t0
-    samples = (stats.nt_samples + stats.samples)[:4]
-    evidence = {
-        "property_id": pid, "tier": tier, "seed": int(seed), "level": getattr(mod, "LEVEL", "exploration"),
-        "coverage": {
-            "evaluations": stats.evaluations,
-            "distinct_nontrivial": len(stats.nontrivial),
-            "rule": mod.RULE,
-            "samples": samples,
-            "labels": dict(sorted(stats.labels.items())),
-            "exhaustive": bool(exhaustive_n) and not budget_hit,
-            "exhaustive_cases": exhaustive_n,
-            "exhaustive_domain": getattr(mod, "EXHAUSTIVE_DOMAIN", None),
-            "random_cases_requested": (per * shards) if n_total > 0 else 0,
-            "shards": shards,
-            "corpus_replays": corpus_run,
-            "live_known_findings": sorted(live),
-            "excluded_by_known_finding": stats.excluded,
-            "budget_hit": budget_hit,
-            "violation_signatures": sorted(new),
-            "repo": os.environ.get("VERIF_REPO", "/repo"),
-        },
-        "assumptions": list(getattr(mod, "ASSUMPTIONS", [])),
-        "wall_s": round(wall, 2),
-        "violations": len(new),
-    }
-    if not evidence["coverage"]["exhaustive"]:
-        evidence["coverage"]["exhaustive"] = False
-    os.makedirs(os.path.join(OUT, "evidence"), exist_ok=True)
-    with open(os.path.join(OUT, "evidence", f"{pid}.json"), "w") as fh:
-        json.dump(evidence, fh, indent=1, default=str)
-
     for line in known_lines:
         out(line)
     for line in viol_lines:
